@@ -99,7 +99,7 @@ INV_FOR = {
 
 # per property: exhaustive configs per tier, simulation configs (name, behaviours quick, thorough, depth)
 PLAN = {
-    "C01": {"mc": {"quick": ["coll3"], "thorough": ["coll4", "write4"]},
+    "C01": {"keytypes": True, "mc": {"quick": ["coll3"], "thorough": ["coll4", "write4"]},
             "sim": [("sim_coll", 400, 6000, 60), ("sim_str", 300, 4000, 60)]},
     "C02": {"mc": {"quick": ["write3"], "thorough": ["write4", "handoff4"]},
             "sim": [("sim_write", 400, 6000, 60), ("sim_ttl", 300, 4000, 60), ("sim_handoff", 200, 3000, 60)]},
@@ -314,6 +314,15 @@ def run(ctx, pid):
                 for ln in f:
                     if '"ev":"New"' in ln:     # remember which configuration a trace came from
                         ln = ln.rstrip("\n")[:-1] + ',"config":"%s"}\n' % name
+                    allf.write(ln)
+        if plan.get("keytypes"):
+            ktrace, ksumm = cachelib.keytypes_run(ctx, race=ctx.tier == "thorough")
+            total["traces"] += ksumm["traces"]
+            total["events"] += ksumm["events"]
+            with open(ktrace) as f:
+                for ln in f:
+                    if '"ev":"New"' in ln:
+                        ln = ln.rstrip("\n")[:-1] + ',"config":"keytypes"}\n'
                     allf.write(ln)
         ring_info = None
         if plan.get("ring"):
